@@ -24,6 +24,26 @@ def render_forced(tree, state):
     return "".join(out)
 
 
+def possible_date(st):
+    """Does the calendar part of this state denote a day that exists?  (A year moved by one keeps 29 February, day 366
+    or week 53 only if the new year has them.)"""
+    y = st.get("year_y")
+    if y is not None:
+        if st.get("month") is not None and st.get("dom") is not None:
+            try:
+                dt.date(y, st["month"], st["dom"])
+            except ValueError:
+                return False
+        last = rp.cal_fields(dt.date(y, 12, 31))
+        for f in ("doy", "week_w", "week_u"):
+            if st.get(f) is not None and st[f] > last[f]:
+                return False
+    g = st.get("year_g")
+    if g is not None and st.get("week_v") is not None and st["week_v"] > dt.date(g, 12, 28).isocalendar()[1]:
+        return False
+    return True
+
+
 def derive_target(kind, tree, state, text):
     """A --set-version target of the given kind, or None when the pattern/state admits none."""
     fields = rp.fields_of(tree)
@@ -64,7 +84,7 @@ def derive_target(kind, tree, state, text):
             return rp.render(tree, st)
         if "year_y" in fields and st["year_y"] % 100 < 98:
             st["year_y"] += 1
-            return rp.render(tree, st)
+            return rp.render(tree, st) if possible_date(st) else None
         return None
     if kind == "lower":
         for f in ("major", "minor", "patch", "inc0", "num"):
@@ -73,7 +93,7 @@ def derive_target(kind, tree, state, text):
                 return rp.render(tree, st)
         if "year_y" in fields and st["year_y"] % 100 > 2:
             st["year_y"] -= 1
-            return rp.render(tree, st)
+            return rp.render(tree, st) if possible_date(st) else None
         return None
     return None
 
@@ -346,7 +366,7 @@ class TestCmd:
                 break
         epoch = gp.gen_epoch(rng, gp.has_two_digit_year(tree))
         if self.legacy and not (2000 <= epoch.year <= 2098):
-            epoch = epoch.replace(year=rng.randint(2000, 2098))
+            epoch = dt.date(rng.randint(2000, 2098), epoch.month, min(epoch.day, 28))
         state_date = epoch
         if rng.random() < 0.12:
             state_date = epoch + dt.timedelta(days=rng.randint(1, 400))
